@@ -150,9 +150,16 @@ def tWalk (cfg : Cfg) (raws : Nat → List Raw) : Nat → Nat → TState Nat →
         | none => none
         | some s' => tWalk cfg raws fuel (lcg seed) s' (n + 1)
 
+/-- every worker of a walk also sends two suppression lines (an inline one and a checked global one), so that the
+    REPORT_SUPPR frames are interleaved with the findings of the other workers -/
+def walkSups (f : Nat) : List (Bool × Suppr) :=
+  [(true, { errorId := "nullPointer".toList, fileName := "dir/f.c".toList, lineNumber := f + 1, symbolName := "sym".toList,
+            checked := true, matched := f % 2 == 0, isInline := true, extraComment := "why; not".toList, type := 2 }),
+   (false, { errorId := "uninitvar".toList, checked := true, column := 3 })]
+
 def pEnabled (cfg : Cfg) (jobs : Nat) (raws : Nat → List Raw) (s : PState Nat) : List PLabel :=
   ([PLabel.fork] ++ (List.range s.children.length).flatMap fun i => [PLabel.send i, PLabel.exit i, PLabel.read i, PLabel.reap i]).filter
-    fun l => (pstep cfg jobs raws (fun _ => []) s l).isSome
+    fun l => (pstep cfg jobs raws walkSups s l).isSome
 
 def pWalk (cfg : Cfg) (jobs : Nat) (raws : Nat → List Raw) : Nat → Nat → PState Nat → Nat → Option (PState Nat × Nat)
   | 0, _, _, _ => none
@@ -162,7 +169,7 @@ def pWalk (cfg : Cfg) (jobs : Nat) (raws : Nat → List Raw) : Nat → Nat → P
       let en := pEnabled cfg jobs raws s
       match en[(seed / 65536) % en.length]? with
       | none => none
-      | some l => match pstep cfg jobs raws (fun _ => []) s l with
+      | some l => match pstep cfg jobs raws walkSups s l with
         | none => none
         | some s' => pWalk cfg jobs raws fuel (lcg seed) s' (n + 1)
 
@@ -273,7 +280,7 @@ def step (line : String) : String :=
         let t := match tWalk cfg raws (4 * total + 4 * fs.length + 4 * jobs + 8) seed (tinit files jobs) 0 with
           | some (s, _) => showKeysBy cfg s.outcome
           | none => "stuck"
-        let p := match pWalk cfg jobs raws (4 * total + 8 * fs.length + 8) seed (pinit files) 0 with
+        let p := match pWalk cfg jobs raws (4 * total + 16 * fs.length + 8) seed (pinit files) 0 with
           | some (s, _) => showKeysBy cfg s.outcome
           | none => "stuck"
         let ok := files.all fun f => keyOK cfg (raws f) && dedupOK cfg (raws f)
@@ -295,8 +302,11 @@ def step (line : String) : String :=
           | some (s, n) => s!"X steps={n} same={b01 (showKeys s.outcome == showKeys single)} {showOutcome s.outcome}"
           | none => "X stuck"
         else
-          match pWalk cfg jobs raws (4 * total + 8 * fs.length + 8) seed (pinit files) 0 with
-          | some (s, n) => s!"X steps={n} same={b01 (showKeys s.outcome == showKeys single)} {showOutcome s.outcome}"
+          match pWalk cfg jobs raws (4 * total + 16 * fs.length + 8) seed (pinit files) 0 with
+          | some (s, n) =>
+            let recvOk := (s.parent.recv.map (showSuppr "")).foldr insertStr [] ==
+              ((files.flatMap fun f => decodedSups cfg (walkSups f)).map (showSuppr "")).foldr insertStr []
+            s!"X steps={n} same={b01 (showKeys s.outcome == showKeys single && recvOk)} {showOutcome s.outcome}"
           | none => "X stuck"
       | _ => "bad-op"
     | _, _, _, _ => "bad-op"
